@@ -79,8 +79,7 @@ def r1(ctx, fs):
         ctx.finding(rid, f.id, 'register', 'new_var: the value map must be appended to assigns exactly once', loc=f.loc)
 
 
-def r2(ctx, fs):
-    rid = 'C14.R2'
+def r2(ctx, fs, rid='C14.R2'):
     ctx.rule(rid, 'new_eq(l,r): l==r -> TRUE_lit; l>r -> new_eq(r,l); cache by ordered pair; empty intersection -> FALSE_lit; clauses: for v outside the intersection '
                   '(both sides) {!e,!l_v}; for v inside {!e,!L_v,R_v} {!e,L_v,!R_v} {e,!L_v,!R_v}; e fresh', floor=9)
     f = fs.fn(OV + 'new_eq')
